@@ -187,3 +187,62 @@ package app
 //@   requires vals_nonnil [safety]: forall k string :: has(clusterState, k) ==> clusterState[k] != nil
 //@   assert_at repairSlaveOfflineMode#1 C17.same_pass [C17]: callarg5 == pendingOfflineByAZ && callarg0 != master
 //@   assert_at repairMasterOfflineMode#1 C17.master_branch [C17]: callarg0 == master
+
+// ---- C05: automatic failover gates ----------------------------------------------------------------
+
+//@ func (*app.Timings).SetIfZero
+//@   flags inline
+
+//@ define crashRecovered(app *App, d map[string]*nodestate.NodeState, master string) = d[master].DaemonState != nil && d[master].DaemonState.CrashRecovery && app.config.ResetupCrashedHosts
+//@ define skipHealthGates(app *App, d map[string]*nodestate.NodeState, master string) = crashRecovered(app, d, master) || d[master].IsFileSystemReadonly
+//@ define cntRunningHA(cs map[string]*nodestate.NodeState) = count(k string in dom(cs) :: runningHA(cs[k]))
+//@ define cntHA(cs map[string]*nodestate.NodeState) = count(k string in dom(cs) :: !cs[k].IsCascade)
+//@ define cntAliveIn(cs map[string]*nodestate.NodeState, nodes []string) = count(i int in range(0, len(nodes)) :: aliveHA(cs, nodes[i]))
+//@ define swHelper(app *App) = unbox(app.switchHelper, "*mysql.SwitchHelper")
+//@ define quorumOK(app *App, nodes []string, alive int) = (swHelper(app).SemiSync ==> alive >= quorum(len(nodes), swHelper(app).rplSemiSyncMasterWaitForSlaveCount)) && (!swHelper(app).SemiSync ==> alive >= 1)
+
+//@ func (*app.App).approveFailover
+//@   requires vals_nonnil [safety]: (forall k string :: has(clusterState, k) ==> clusterState[k] != nil) && clusterStateDcs[master] != nil
+//@   ensures C05.enabled [C05]: result == nil ==> app.config.Failover
+//@   ensures C05.notall [C05]: result == nil && !skipHealthGates(app, clusterStateDcs, master) ==> !(cntRunningHA(clusterState) > 0 && cntRunningHA(clusterState) == cntHA(clusterState) - 1)
+//@   ensures C05.delay [C05]: result == nil && !skipHealthGates(app, clusterStateDcs, master) && app.config.FailoverDelay > 0 ==> now - old(app.t.m[NodeFailedAt][master]) >= app.config.FailoverDelay
+//@   ensures C05.quorum [C05]: result == nil ==> quorumOK(app, activeNodes, cntAliveIn(clusterState, activeNodes))
+//@   ensures C05.noeffect [C05]: tick == old(tick)
+//@   assert_at return#* C05.cooldown [C05]: result == nil ==> errIs(resultof("GetLastSwitchover", 1), dcs.ErrNotFound) || (resultof("GetLastSwitchover", 1) == nil && lastSwitchover.Result != nil && !(now - lastSwitchover.Result.FinishedAt < app.config.FailoverCooldown && lastSwitchover.Cause == CauseAuto))
+
+// ---- C06: switch request bookkeeping ---------------------------------------------------------------
+
+//@ define overLimit(app *App, sw *Switchover) = sw.MasterTransition != FailoverTransition && app.config.SwitchoverMaxAttempts > 0 && sw.RunCount >= app.config.SwitchoverMaxAttempts
+//@ define switchKeysUntouched() = e_CreateSwitch == old(e_CreateSwitch) && e_SetSwitch == old(e_SetSwitch) && e_DeleteSwitch == old(e_DeleteSwitch) && e_SetLastSwitch == old(e_SetLastSwitch) && e_SetLastRejected == old(e_SetLastRejected)
+
+//@ func (*app.App).approveSwitchover
+//@   requires vals_nonnil [safety]: switchover != nil && (forall k string :: has(clusterState, k) ==> clusterState[k] != nil)
+//@   ensures C06.limit [C06]: overLimit(app, switchover) ==> result != nil
+//@   ensures C06.notrejudged [C06]: !overLimit(app, switchover) && switchover.RunCount > 0 ==> result == nil
+//@   ensures C06.first [C06]: result == nil && switchover.RunCount <= 0 ==> quorumOK(app, activeNodes, cntAliveIn(clusterState, activeNodes))
+//@   ensures C06.noeffect [C06]: tick == old(tick) && switchover.RunCount == old(switchover.RunCount)
+
+//@ func (*app.App).FailSwitchover
+//@   requires nonnil [safety]: switchover != nil && err != nil
+//@   ensures C06.counted [C06]: switchover.RunCount == old(switchover.RunCount) + 1
+//@   ensures C06.fail_pending [C06]: e_SetSwitch == old(e_SetSwitch) + 1 && e_CreateSwitch == old(e_CreateSwitch) && e_DeleteSwitch == old(e_DeleteSwitch) && e_SetLastSwitch == old(e_SetLastSwitch) && e_SetLastRejected == old(e_SetLastRejected)
+//@   ensures C06.fail_result [C06]: switchover.Result != nil && !switchover.Result.Ok
+
+//@ func (*app.App).FinishSwitchover
+//@   requires nonnil [safety]: switchover != nil
+//@   ensures C06.finish_ok [C06]: switchover.Result != nil && (switchover.Result.Ok <==> switchErr == nil)
+//@   ensures C06.finish_delete_first [C06]: e_DeleteSwitch == old(e_DeleteSwitch) + 1 && e_CreateSwitch == old(e_CreateSwitch) && e_SetSwitch == old(e_SetSwitch)
+//@   ensures C06.finish_success [C06]: switchErr == nil ==> e_SetLastRejected == old(e_SetLastRejected) && e_SetLastSwitch <= old(e_SetLastSwitch) + 1 && (result == nil ==> e_SetLastSwitch == old(e_SetLastSwitch) + 1)
+//@   ensures C06.finish_reject [C06]: switchErr != nil ==> e_SetLastSwitch == old(e_SetLastSwitch) && e_SetLastRejected <= old(e_SetLastRejected) + 1 && (result == nil ==> e_SetLastRejected == old(e_SetLastRejected) + 1)
+//@   ensures C06.finish_record_after_delete [C06]: e_SetLastSwitch > old(e_SetLastSwitch) || e_SetLastRejected > old(e_SetLastRejected) ==> !d_switchPresent
+//@   ensures C06.finish_keeps_count [C06]: switchover.RunCount == old(switchover.RunCount)
+
+//@ func (*app.App).StartSwitchover
+//@   requires nonnil [safety]: switchover != nil
+//@   ensures C06.start [C06]: e_SetSwitch == old(e_SetSwitch) + 1 && e_CreateSwitch == old(e_CreateSwitch) && e_DeleteSwitch == old(e_DeleteSwitch) && e_SetLastSwitch == old(e_SetLastSwitch) && e_SetLastRejected == old(e_SetLastRejected)
+//@   ensures C06.start_keeps [C06]: switchover.RunCount == old(switchover.RunCount) && switchover.From == old(switchover.From) && switchover.To == old(switchover.To) && switchover.Cause == old(switchover.Cause) && switchover.MasterTransition == old(switchover.MasterTransition) && switchover.InitiatedAt == old(switchover.InitiatedAt)
+
+//@ func (*app.App).IssueFailover
+//@   ensures C05.create_if_absent [C05,C06]: e_CreateSwitch == old(e_CreateSwitch) + 1 && e_SetSwitch == old(e_SetSwitch) && e_DeleteSwitch == old(e_DeleteSwitch)
+//@   ensures C05.not_over_pending [C05,C06]: old(d_switchPresent) ==> result != nil
+//@   assert_at CreateCurrentSwitchover#1 C05.auto_cause [C05,C06]: callarg0.Cause == CauseAuto && callarg0.MasterTransition == FailoverTransition && callarg0.From == master && callarg0.RunCount == 0 && callarg0.Result == nil
